@@ -149,4 +149,27 @@ func init() {
 		Real: []string{"RemoteHTTP", "RemoteHTTPIndex", "IssueRetryableHttpRequest", "HTTPHandler", "HTTPIndexHandler", "Converters", "Protocol", "ProtocolServer", "LocalStore", "LocalIndexStore"},
 		Stub: []string{"HTTP transport (scripted in-process RoundTripper)", "ssh pipe", "fake clock (synctest)"},
 	})
+	reg(&Prop{ID: "C04", Level: "fault_enumeration",
+		Quick:    Tier{Cases: 4800, PerJob: 300, Seconds: 70},
+		Thorough: Tier{Cases: 400000, PerJob: 5000, Seconds: 1500},
+		Rule: "one case = generated index (0..200 chunks, sizes <= max, random IDs, arbitrary extra feature flags, SHA512/256 or SHA256 process digest) written with Index.WriteTo; the bytes must parse with the independent caibx parser to the same table (tail marker offsets/sizes included); read back through a fragmenting stream reader, LocalIndexStore or RemoteHTTPIndex+HTTPIndexHandler (also stored through the HTTP client) it must equal what was written; then EVERY strict prefix (stream) or <= 600 evenly spaced prefixes plus the boundary lengths (stores), two swapped offsets, a chunk enlarged beyond max and a flipped digest flag must each be rejected; 1/10 of the cases re-encode a casync-made fixture byte-identically; sub_evaluations = reads; distinct = distinct tapes; non-trivial = a fault was applied",
+		Assumptions: []string{
+			"the round-trip half is a pure function of the index; it runs here as the fault-free configuration of the same harness (DESIGN.md C04 honest limit)",
+			"console (stdin/stdout) and S3 index stores are not exercised",
+		},
+		Real: []string{"Index.WriteTo", "IndexFromReader", "FormatDecoder", "FormatEncoder", "LocalIndexStore", "RemoteHTTPIndex", "HTTPIndexHandler"},
+		Stub: []string{"HTTP transport", "fragmenting reader", "fault injector on stored index bytes"},
+	})
+	reg(&Prop{ID: "C19", Level: "fault_enumeration",
+		Quick:    Tier{Cases: 960, PerJob: 60, Seconds: 70},
+		Thorough: Tier{Cases: 96000, PerJob: 1000, Seconds: 1500},
+		Rule: "one case = a valid stream (generated index of 0..59 chunks; a casync-made catar fixture; a sequence of casync protocol messages) fed to one decoder (IndexFromReader, HTTP index handler PUT, FormatDecoder.Next, ArchiveDecoder.Next, Protocol.ReadMessage) through a reader that injects: truncation at EVERY byte (<= 3000 evenly spaced for long streams), EVERY element/message size field set to each of 0, 1, 8, 15, 16, 17, 24, 31..33, 40, 47, 48, 63..65, size-1, size+1, size+24, 2^20, 2^50, 2^63, 2^64-1, 2^64-16 (and 2^28 occasionally), every type field replaced by another element type, 64 random bit flips, fragmented reads, and I/O errors at a tape-chosen read; oracle: no panic, bytes allocated by the call <= 8*len(input)+128 KiB (runtime.MemStats delta), reader errors surface; sub_evaluations = faulted decodes; distinct = distinct tapes; non-trivial = a fault was applied",
+		Assumptions: []string{
+			"'all byte strings' is explored only as faulted valid streams (DESIGN.md C19 honest limit)",
+			"size values between 2^31 and 2^47 are not injected: the unpatched decoder would really try to allocate them and take the sandbox down; 2^20/2^28 (really allocated) and >= 2^50 (makeslice panic) bracket that range",
+			"catar inputs are the five casync-made fixtures of the repository",
+		},
+		Real: []string{"IndexFromReader", "FormatDecoder", "ArchiveDecoder", "Protocol.ReadMessage", "HTTPIndexHandler.put", "reader"},
+		Stub: []string{"faulting reader", "HTTP request recorder"},
+	})
 }
